@@ -38,8 +38,11 @@ class MetStub:
     def __init__(self, mid: str):
         self.id = mid
         self.name = "name of " + mid
-        self.formula = "C2H4"
-        self.elements = {"C": 2, "H": 4}
+        # Metabolite.elements is documented to be None for a formula it cannot parse (parentheses, a bad count) and
+        # {} for a metabolite without a formula: the stand-ins cover the three answers
+        kind = sum(map(ord, mid)) % 3
+        self.formula = ("C2H4", "C6H10O5(H2O)", None)[kind]
+        self.elements = ({"C": 2, "H": 4}, None, {})[kind]
         self.reactions: List["RxnStub"] = []
         self.is_copy = False
 
@@ -176,6 +179,9 @@ class Interp:
                 raise Unknown(f"attribute {e.attr} of {type(base).__name__}")
         if isinstance(e.value, ast.Name) and e.value.id == "logger":
             return Opaque("logger")
+        if base is None and not isinstance(e.value, ast.Constant):
+            # an attribute of None (elements of a formula that cannot be parsed, a missing name): Python raises
+            raise EvalRaise("AttributeError", e)
         return NotImplemented
 
     def on_store(self, ev, target, value) -> bool:
@@ -277,6 +283,8 @@ class Interp:
             if isinstance(f.value, ast.Name) and f.value.id == "logger":
                 return None
             recv = ev.eval(f.value)
+            if recv is None:
+                raise EvalRaise("AttributeError", c)  # a method of None
             if isinstance(recv, SelfStub):
                 args, kwargs = self._args(ev, c)
                 return self.call_method(recv._cls, f.attr, recv, args, kwargs)
